@@ -72,6 +72,11 @@ def main():
     if args:
         seeds = [s for s in seeds if s in args or s.split('-')[0] in args]
     cl = claimed()
+    only = None
+    if '--only' in sys.argv:        # --only C10,C11 : sweep just the seeds of these properties (MATRIX.md is not rewritten)
+        only = sys.argv[sys.argv.index('--only') + 1].split(',')
+        args = [a for a in args if a != sys.argv[sys.argv.index('--only') + 1]]
+        seeds = [s for s in sorted(e for e in os.listdir(SEEDED) if os.path.isdir(os.path.join(SEEDED, e))) if s.split('-')[0] in only]
     jobs = {}
     with cf.ThreadPoolExecutor(max_workers=j) as ex:
         for s in seeds:
@@ -98,7 +103,7 @@ def main():
             st = 'ERROR exit %s' % own['exit']
         rows.append((s, st, (own or {}).get('fired', [])[:3], others))
         print('%-7s %-12s %s %s' % (s, st, '; '.join((own or {}).get('fired', [])[:2])[:150], ('also: ' + ','.join(others)) if others else ''))
-    if not args:
+    if not args and only is None:
         with open(os.path.join(SEEDED, 'MATRIX.md'), 'w') as fh:
             fh.write('# Seeded breaking changes vs. checks (written by tools/seed_sweep.py)\n\n| seed | own check | first rule instances that fire | other checks that fire |\n|---|---|---|---|\n')
             for s, st, fired, others in rows:
